@@ -27,7 +27,15 @@ def plan(tier, seed):
           'params': {'n_programs': 25 if tier == 'thorough' else 5, 'singles': 8 if tier == 'thorough' else 3}}
 
 
+FOCUS = {'func': 1.0, 'fcall_boost': 0.5, 'lists': 1.0, 'in_filter_rate': 0.6, 'records': 0.1, 'inj': 0.2, 'or': 0.2,
+         'n_der': (2, 3), 'n_ext': (2, 3), 'max_facts': 5}
+
+
 def features_for(i):
+  if i >= 1000:
+    # focused small programs: repeated functional calls over multi-valued functions, `in` filters with computed and
+    # repeated elements - the places where `F(x)` vs an extra conjunct and `in` vs a disjunction count multiplicities
+    return FOCUS
   k = i % 3
   if k == 0:
     return {'func': 0.9, 'inj': 0.8, 'n_der': (3, 5)}
@@ -112,15 +120,18 @@ def run_shard(ctx):
   pipeline.enable_library_memo()
   for i in range(ctx.params['n_programs']):
     run_case(ctx, ctx.rng.randrange(1 << 48), i, ctx.params['singles'])
+  for i in range(ctx.params['n_programs'] * 2):
+    run_case(ctx, ctx.rng.randrange(1 << 48), 1000 + i, 1, only=('all_in_list', 'fcall_as_conjunct', 'all_value'))
+    ctx.count('focus_programs')
 
 
-def run_case(ctx, case_seed, i, singles):
+def run_case(ctx, case_seed, i, singles, only=None):
   rng = random.Random(case_seed)
   prog = progen.generate(rng, features_for(i))
   base_policy = printer.Policy()
   text, pr = printer.program_text(prog, base_policy)
   sites = dict(base_policy.sites)
-  info = {'case_seed': case_seed, 'i': i, 'singles': singles}
+  info = {'case_seed': case_seed, 'i': i, 'singles': singles, 'only': list(only) if only else None}
   ctx.journal(dict(info, program=text))
   ctx.count('programs')
   rules, bad = pipeline.parse_program(text)
@@ -156,6 +167,8 @@ def run_case(ctx, case_seed, i, singles):
     variants.append(('rules_as_disjunction', pd, printer.Policy(), 'rules'))
 
   for name, vprog, pol, kind in variants:
+    if only is not None and name not in only:
+      continue
     vtext, _ = printer.program_text(vprog, pol)
     if vtext == text:
       continue
@@ -211,5 +224,5 @@ def finalize(agg, tier):
 def replay(w):
   c = semantic.Collector()
   pipeline.mods()
-  run_case(c, w['case_seed'], w['i'], w.get('singles', 3))
+  run_case(c, w['case_seed'], w['i'], w.get('singles', 3), only=tuple(w['only']) if w.get('only') else None)
   return c.report()
